@@ -15,6 +15,15 @@ GOOD = {
 GOOD["same_pair_rgb_notation"] = ".n {\n  color: rgb(119, 119, 119);\n  background-color: white;\n}\n"
 GOOD_ORDER = list(GOOD)
 FAULTS = ["non_utf8", "directory", "dangling_link", "unserialisable", "empty", "stale_output", "fails_late_defines_t", "link_to_good", "good_in_odd_place"]
+# unusual but valid files: processed like any other, and never allowed to colour the files around them
+ODD = {
+    "bom_good": "\ufeff.q {\n  color: #777;\n  background-color: #fff;\n}\n",
+    "charset_good": '@charset "utf-8";\n.q {\n  color: #777;\n}\n',
+    "crlf_good": ".q {\r\n  color: #777;\r\n}\r\n.r { color: var(--t, #888) }\r\n",
+    "no_adjustable": ".p {\n  margin: 0;\n}\n",
+    "only_comment": "/* nothing here */\n",
+}
+FAULTS += list(ODD)
 LINKED = ".k {\n  color: var(--t, #888);\n  background-color: #fff;\n}\n"   # reached through a symlink / in a hidden, deeply nested file
 LATE = ":root {\n  --t: #222;\n}\n.v {\n  color: var(--t);\n}\n.u {\n  *zoom: 1;\n  color: #777;\n}\n"   # fails after its :root was indexed
 FAULT_POS = ["0.css", "b.css", "n.css", "sub/y.css", "sub/deep/er/.hidden.css"]
@@ -44,6 +53,8 @@ def make_fault(w, rel, kind):
         target = os.path.join(w.path, "linked-target.txt")   # not a .css name: only reachable through the link
         open(target, "w").write(LINKED)
         os.symlink(target, p)
+    elif kind in ODD:
+        open(p, "wb").write(ODD[kind].encode("utf-8"))
     elif kind == "stale_output":
         q = os.path.join(os.path.dirname(p), STALE[0])
         open(q, "w").write(STALE[1])
@@ -142,6 +153,8 @@ def judge_tree(goods, faults, settings=SETTINGS, perm=None):
             expected[rel[:-4] + "_cm.css"] = solo_output(LATE, rel, settings)
         elif kind in ("link_to_good", "good_in_odd_place"):
             expected[rel[:-4] + "_cm.css"] = solo_output(LINKED, rel, settings)
+        elif kind in ODD:
+            expected[rel[:-4] + "_cm.css"] = solo_output(ODD[kind], rel, settings)
         else:
             expected[rel[:-4] + "_cm.css"] = None
     status, obs = forked(_batch_here, goods, faults, settings, perm)
@@ -214,7 +227,7 @@ def trees(ctx):
         for paths in itertools.combinations(GOOD_POS, k):
             for keys in itertools.permutations(G, k):
                 layouts.append(list(zip(paths, keys)))
-    singles = [[]] + [[(pos, kind)] for pos in FAULT_POS for kind in FAULTS]
+    singles = [[]] + [[(pos, kind)] for pos in FAULT_POS for kind in FAULTS if not (ctx.quick and kind in ODD and pos not in FAULT_POS[:2])]
     doubles = []
     if not ctx.quick:
         cells = [(pos, kind) for pos in FAULT_POS for kind in FAULTS]
